@@ -7,6 +7,7 @@ import (
 	"fmt"
 	"os"
 	"runtime"
+	"sort"
 	"strings"
 	"sync"
 	"time"
@@ -479,6 +480,9 @@ func (r *rig) stableLocked(expectStart map[int]bool, errEmitWaived map[int]bool)
 			if le.Err && !errSeen[m] && !errEmitWaived[m] {
 				return false
 			}
+			if le.Err && failedSubMode == 1 {
+				return false // this engine ends a failed subscription: wait for Put
+			}
 		}
 	}
 	return true
@@ -487,7 +491,37 @@ func (r *rig) stableLocked(expectStart map[int]bool, errEmitWaived map[int]bool)
 var (
 	leakOnce sync.Once
 	leaks    int
+	// failedSubMode: does the engine end a subscription whose Execute failed (Put follows the
+	// error message) or keep it registered (the unchanged tree, finding
+	// C19-failed-subscription-stays-active)? Nothing else tells the rig when such an operation
+	// has settled, so the first failed subscription of the process is used to find out, with a
+	// generous one-sided wait. 0 unknown, 1 ends it, 2 keeps it.
+	failedSubMode int
 )
+
+// failedSubAwaiting returns the message index of a failed subscription whose executor has
+// returned and has not been put back (r.mu held), or -1.
+func (r *rig) failedSubAwaitingLocked() int {
+	last := map[int]event{}
+	for _, e := range r.hist {
+		switch e.K {
+		case evXGET, evXS, evXE, evXWAIT, evXHOLD, evXCANCEL, evXR, evXP:
+			last[e.M] = e
+		}
+	}
+	ms := make([]int, 0, len(last))
+	for m := range last {
+		ms = append(ms, m)
+	}
+	sort.Ints(ms)
+	for _, m := range ms {
+		le := last[m]
+		if x := r.execs[m]; x != nil && le.K == evXR && le.Err && x.sc.Op == "subscription" && !x.cancelled() {
+			return m
+		}
+	}
+	return -1
+}
 
 // drive runs one case against a fresh handler and returns the complete history.
 func drive(c Case) outcome {
@@ -556,6 +590,25 @@ func drive(c Case) outcome {
 		for {
 			es := accept(c, r.snapshot(), false).expectStart
 			if r.wait(wdSettle, func() bool { return r.stableLocked(es, errWaived) }) {
+				if failedSubMode == 0 {
+					r.mu.Lock()
+					m := r.failedSubAwaitingLocked()
+					r.mu.Unlock()
+					if m >= 0 {
+						put := r.wait(time.Second, func() bool {
+							for _, e := range r.hist {
+								if e.K == evXP && e.M == m {
+									return true
+								}
+							}
+							return false
+						})
+						failedSubMode = 2
+						if put {
+							failedSubMode = 1
+						}
+					}
+				}
 				return true
 			}
 			// which executor are we waiting for? a failed subscription whose error message does
